@@ -68,6 +68,11 @@ def readyEv (r : RSt) (b i : Nat) : XEv :=
   { obj := "mq.mpsc.ready", inst := s!"{tokOf r b}[{i}]", op := "load", res := b2s (r.st.sh.ready b i), ord := "Acquire" }
 def nextEv (r : RSt) (b : Nat) : XEv :=
   { obj := "mq.mpsc.next", inst := tokOf r b, op := "load", res := ostr r (r.st.sh.next b), ord := "Acquire" }
+/-- the non-atomic slot accesses: `swrite idx value` / `sread idx -> value found` on the block -/
+def swriteEv (r : RSt) (b i v : Nat) : XEv :=
+  { obj := "mq.mpsc._slot", inst := tokOf r b, op := "swrite", a1 := toString i, a2 := toString v }
+def sreadEv (r : RSt) (b i : Nat) : XEv :=
+  { obj := "mq.mpsc._slot", inst := tokOf r b, op := "sread", a1 := toString i, res := toString (r.st.sh.val b i) }
 def freeEv (r : RSt) (b : Nat) : XEv := { kind := "note", op := "free", a1 := tokOf r b }
 def idxU (r : RSt) : XEv := { obj := "mq.mpsc.index", inst := "0", op := "uload", res := toString r.st.sh.headIdx }
 def blkU (r : RSt) : XEv := { obj := "mq.mpsc.block", inst := "0", op := "uload", res := pstr r r.st.sh.headBlk }
@@ -108,6 +113,9 @@ def expect (r : RSt) (pc : Pc) (e : Env) : Option (List XEv) :=
       some [{ obj := "mq.mpsc.BlockPtr.0", inst := "0", op := "cas", a1 := if stale then "*" else wstr r exp,
               a2 := if stale then "*" else wstr r (nextWord s.B exp),
               res := wstr r s.tail, flag := if ok || e == .aba then 1 else 0, ord := "AcqRel" }]
+  | .pWrite v b i, _ => some [swriteEv r b i v]
+  | .oRead _ _ hb pi, _ | .kRead hb pi, _ => some [sreadEv r hb (pi % s.B)]
+  | .bFastRd hb ci _, _ | .bCopyRd hb ci _ _, _ => some [sreadEv r hb (ci % s.B)]
   | .pSet _ b i, _ => some [{ obj := "mq.mpsc.ready", inst := s!"{tokOf r b}[{i}]", op := "store", a1 := "1", ord := "Release" }]
   | .pWait b _, _ => some [nextEv r b]
   | .pLink nx nn, _ => some [{ obj := "mq.mpsc.next", inst := tokOf r nx, op := "store", a1 := pstr r nn, ord := "Release" }]
@@ -132,14 +140,14 @@ def expect (r : RSt) (pc : Pc) (e : Env) : Option (List XEv) :=
 
 def pcName : Pc → String
   | .idle => "idle" | .nAlloc0 => "nAlloc0" | .nAlloc1 _ => "nAlloc1" | .nLink .. => "nLink" | .nRet => "nRet"
-  | .pLoad _ => "pLoad" | .pCas .. => "pCas" | .pSet .. => "pSet" | .pAlloc _ => "pAlloc" | .pWait .. => "pWait"
+  | .pLoad _ => "pLoad" | .pCas .. => "pCas" | .pWrite .. => "pWrite" | .pSet .. => "pSet" | .pAlloc _ => "pAlloc" | .pWait .. => "pWait"
   | .pLink .. => "pLink" | .pTail _ => "pTail"
   | .oBlk d => if d then "oBlk.d" else "oBlk" | .oIdx .. => "oIdx" | .oTry .. => "oTry" | .oTail .. => "oTail"
-  | .oSpin .. => "oSpin" | .oStore .. => "oStore"
+  | .oSpin .. => "oSpin" | .oRead .. => "oRead" | .oStore .. => "oStore"
   | .rFree .. => "rFree" | .rNext .. => "rNext" | .rHead .. => "rHead"
-  | .bIdx => "bIdx" | .bBlk _ => "bBlk" | .bFast .. => "bFast" | .bStore .. => "bStore" | .bTail .. => "bTail"
-  | .bCopy .. => "bCopy"
-  | .kIdx => "kIdx" | .kTail _ => "kTail" | .kBlk _ => "kBlk" | .kSpin .. => "kSpin"
+  | .bIdx => "bIdx" | .bBlk _ => "bBlk" | .bFast .. => "bFast" | .bFastRd .. => "bFastRd" | .bStore .. => "bStore" | .bTail .. => "bTail"
+  | .bCopy .. => "bCopy" | .bCopyRd .. => "bCopyRd"
+  | .kIdx => "kIdx" | .kTail _ => "kTail" | .kBlk _ => "kBlk" | .kSpin .. => "kSpin" | .kRead .. => "kRead"
   | .lIdx _ => "lIdx" | .lTail .. => "lTail"
   | .dHead => "dHead" | .dTail _ => "dTail" | .dNext _ => "dNext" | .dFree1 .. => "dFree1" | .dFree2 _ => "dFree2"
   | .dFree3 _ => "dFree3"
